@@ -102,7 +102,7 @@ func runC16CLI(c *C16CLI, o *Outcome) *Outcome {
 		o.Digest = digestOf(log)
 		return o
 	}
-	intact := true // the file is what the tool itself wrote
+	intact := true    // the file is what the tool itself wrote
 	maxInForce := 100 // the CLI's constructor argument; a positive maximum stored in a file the tool adopted replaces it
 	var beh []string
 	crossed := 0
@@ -164,7 +164,7 @@ func runC16CLI(c *C16CLI, o *Outcome) *Outcome {
 			return o
 		}
 		log = append(log, fmt.Sprintf("%s -> %s", quoteArgs(argsOf(args...)), exitDesc(res)))
-			digs = append(digs, stepDigest(res))
+		digs = append(digs, stepDigest(res))
 		if res.Exit != "exit" {
 			return fail("crash:"+st.Kind, "step %d: %s crashed: %s", i, args[0], exitDesc(res))
 		}
